@@ -50,6 +50,7 @@ struct Hooks {
 };
 extern Hooks hooks;
 extern uint64_t wait_cap;	// max wait calls per run
+extern unsigned rng_byte_mask;	// applied to every byte the wrapped arc4random / arc4random_buf hands to the library
 enum { W_EPOLL = 1, W_POLL = 2, W_SELECT = 3 };
 
 // ---- discrete-event queue ---------------------------------------------------
